@@ -109,8 +109,12 @@ impl<T: Write + Seek> ShapeWriter<T> {
                     ),
                     min: PointZ::new(f64::INFINITY, f64::INFINITY, f64::INFINITY, f64::INFINITY),
                 };
+                // The header lives at the start of the file: an earlier `finalize`
+                // (of the still empty file) has already put one there and left us after it.
+                self.shp_dest.seek(SeekFrom::Start(0))?;
                 self.header.write_to(&mut self.shp_dest)?;
                 if let Some(shx_dest) = &mut self.shx_dest {
+                    shx_dest.seek(SeekFrom::Start(0))?;
                     self.header.write_to(shx_dest)?;
                 }
             }
